@@ -152,7 +152,12 @@ class MNewton:
             dfx = df(x)
             d2fx = d2f(x)
             # x = x - F(x)/F'(x) with F(x) = f(x)/f'(x)
-            x -= fx / (dfx - fx * d2fx / dfx)
+            try:
+                x -= fx / (dfx - fx * d2fx / dfx)
+            except ZeroDivisionError:
+                # f'(x) vanishes to working precision: x is as close to a
+                # multiple root as it can get
+                break
             error = abs(x - prevx)
             yield x, error
 
